@@ -225,3 +225,20 @@ CHECKS["C09"] = {
     "note": "Interleavings are controlled only at the hook points between RLBox's own reads. Needs the verif-hook commit "
             "(guard ALLENABY_RLBOX_VERIF). Trusted: TLC, harness/c09_driver.cpp, vm backend, g++ 12.",
 }
+
+CHECKS["C18"] = {
+    "technique": "TLA+ Contract/Model (ThreadsContract/Threads): all interleavings of 2-3 threads by TLC with Model => "
+                 "Contract; every edge replayed as a schedule on real threads under a deterministic cooperative scheduler "
+                 "(custom-lock seam + RLBOX_VERIF_EVENT hook + guest/callback yields); TLC trace validation of the step log",
+    "text": "TLC explores every interleaving of threads that each create, look up (example-based), invoke (yield in the "
+            "guest, callback) and destroy their own sandbox at the granularity of the code's synchronisation points, proving "
+            "reader/writer exclusion, that list elements are only visited while fully created, and isolation; every edge of "
+            "the 2-thread graph (3-thread in the thorough tier) is replayed on real threads: exactly one runs at a time and "
+            "the controller grants each lock operation, list access, backend creation/destruction, guest yield and callback "
+            "step in schedule order, logging it; seeded random schedules with up to 8 (16) threads on the vm backend and on "
+            "the bundled no-op backend; TLC folds the Contract over every log: an unguarded or wrongly guarded list access, a "
+            "list element visited before its backend exists or after it is gone, a callback or lookup that sees another "
+            "thread's sandbox are all outside it.",
+    "note": "Interleaving control only at synchronisation points; no hardware memory-model effects. Needs the verif-hook "
+            "commits. Trusted: TLC, harness/thr_driver.cpp (scheduler), vm backend, g++ 12.",
+}
